@@ -131,6 +131,18 @@ def gen_case(rnd, tier, index):
         ops.append({'op': 'eval', 'a': o, 'form': 'cell', 'pre_trim': True})
     if unrelated:
         ops.append({'op': 'eval', 'a': unrelated, 'form': 'cell', 'pre_trim': True})
+    if rnd.random() < 0.35:
+        # inputs assigned after the last evaluation: what depends on them is uncalculated when
+        # trim_graph is called, and an assigned buried input holds a value that is not its
+        # formula's
+        singles = [a for a in inputs if ':' not in a and a != unrelated]
+        for a in rnd.sample(singles, min(len(singles), rnd.choice((1, 1, 2)))):
+            if wbgen.is_formula_cell(dag.cell[a]):
+                v = draw_num(rnd)
+            else:
+                v = c01.draw_write(rnd, cur.get(a, dag.cell[a].get('v')))
+            cur[a] = v
+            ops.append({'op': 'set', 'a': a, 'v': v, 'over_formula': True, 'pre_trim': True})
     first_inputs = list(inputs)
     if unrelated and rnd.random() < 0.5:
         first_inputs = [unrelated]      # the caller first names a wrong cell only
@@ -242,6 +254,10 @@ def legalise(case):
                 ops.append(op)
             elif k == 'set' and op['a'] in st.all and not wbgen.is_formula_cell(
                     st.dag.cell[op['a']]) and op['a'] not in st.pinned:
+                ops.append(op)
+            elif k == 'set' and op.get('pre_trim') and op['a'] in flat_inputs and any(
+                    o['op'] == 'eval' and o.get('pre_trim') for o in ops):
+                # a buried input assigned between the evaluation of the outputs and the trim
                 ops.append(op)
             continue
         if k == 'eval':
